@@ -2026,6 +2026,11 @@ func (ctx Ctx) funcDecl(d *ast.FuncDecl) coq.FuncDecl {
 	addSourceDoc(d.Doc, &fd.Comment)
 	ctx.addSourceFile(d, &fd.Comment)
 
+	if d.Recv == nil && (d.Name.Name == "_" || d.Name.Name == "init") {
+		// a package may declare any number of these and nothing can refer to
+		// them; each would become a definition of the same name
+		ctx.unsupported(d, "function named %s", d.Name.Name)
+	}
 	if d.Recv != nil {
 		if len(d.Recv.List) != 1 {
 			ctx.nope(d, "function with multiple receivers")
@@ -2055,6 +2060,9 @@ func (ctx Ctx) constSpec(spec *ast.ValueSpec) coq.ConstDecl {
 		ctx.unsupported(spec, "multiple names in one const or var spec")
 	}
 	ident := spec.Names[0]
+	if ident.Name == "_" {
+		ctx.unsupported(spec, "declaration of the blank identifier")
+	}
 	cd := coq.ConstDecl{
 		Name:     ident.Name,
 		AddTypes: ctx.PkgConfig.TypeCheck,
